@@ -329,11 +329,11 @@ def main():
     try:
         if recorded:
             replay_cases(res, recorded)
-        fake_part(res, rng.fork("fake"), drv, big)
-        queue_part(res, rng.fork("queue"), drv, big)
+        M.guarded(res, "fake", lambda: fake_part(res, rng.fork("fake"), drv, big))
+        M.guarded(res, "queue", lambda: queue_part(res, rng.fork("queue"), drv, big))
     finally:
         tcp_mod.select = REAL_SELECT_MODULE
-    loopback_part(res, rng.fork("loop"), big)
+    M.guarded(res, "loopback", lambda: loopback_part(res, rng.fork("loop"), big))
     res.notes.append("the scripted socket raises a BaseException when its oracle is exhausted: that run is 'pending' (the real loop would go on)")
     res.notes.append("kernel TCP (bytes accepted by send() arrive once, in order) is assumed by the theorems and exercised only by the loopback part")
     res.dump(a.out)
